@@ -157,3 +157,159 @@ Proof.
   change (reads_end end_line) with true. cbn [negb].
   rewrite import_roots_astate by assumption. reflexivity.
 Qed.
+
+(** ** the hypotheses are satisfiable *)
+
+(** ASCII strings are valid UTF-8 *)
+Lemma utf8_lossy_ascii s : Forall (fun b => b < 128) s -> utf8_lossy s = s.
+Proof.
+  induction 1 as [|b s Hb _ IH]; [reflexivity|]. cbn [utf8_lossy].
+  destruct (N.ltb_spec b 128); [|lia]. rewrite IH. reflexivity.
+Qed.
+
+(** names of printable ASCII characters are good names *)
+Lemma good_name_ascii n : n <> [] -> Forall (fun b => 32 < b /\ b < 127) n -> good_name n.
+Proof.
+  intros Hne H. split; [exact Hne|split].
+  - eapply Forall_impl; [|exact H]. intros b [H1 H2]. unfold is_space_or_control, is_ascii_control.
+    destruct (N.ltb_spec b 32); [lia|]. destruct (N.eqb_spec b 127); [lia|]. destruct (N.eqb_spec b 32); [lia|]. reflexivity.
+  - apply utf8_lossy_ascii. eapply Forall_impl; [|exact H]. cbn. intros; lia.
+Qed.
+
+(** five variables; 0, 2, 3 are in the support (levels 1, 3, 4), named a..e, three roots *)
+Definition ex_x : xheader :=
+  mkX true false (bs "my dd") 6 [(1, true); (0, false); (3, true); (4, true); (2, false)] [1; 0; 4; 2; 3]
+      (Some [bs "a"; bs "b"; bs "c"; bs "d"; bs "e"]) [4; -5; 6]%Z (Some [bs "f"; bs "g"; bs "h"]).
+
+Example ex_x_wf : xwf ex_x.
+Proof.
+  split.
+  - reflexivity.
+  - reflexivity.
+  - repeat constructor.
+  - cbn. repeat constructor; cbn; intuition discriminate.
+  - reflexivity.
+  - intros [|[|[|[|[|v]]]]] l s H; cbn in H; inversion H; subst; try reflexivity. destruct v; discriminate.
+  - split; [reflexivity|]. repeat constructor; try discriminate; vm_compute; try reflexivity; intuition discriminate.
+  - reflexivity.
+  - repeat constructor; try discriminate; vm_compute; discriminate.
+  - split; [reflexivity|]. repeat constructor; try discriminate; vm_compute; try reflexivity; intuition discriminate.
+Qed.
+
+Example ex_x_text :
+  print_header ex_x = bs ".ver DDDMP-3.0
+.mode B
+.varinfo 4
+.dd my dd
+.nnodes 6
+.nvars 5
+.nsuppvars 3
+.varnames a b c d e
+.suppvarnames a c d
+.orderedvarnames b a e c d
+.ids 0 2 3
+.permids 1 3 4
+.nroots 3
+.rootids 4 -5 6
+.rootnames f g h
+.nodes
+".
+Proof. vm_compute. reflexivity. Qed.
+
+Example ex_x_header :
+  header_of ex_x = mkH false VINone (bs "my dd") 6 5 [0; 2; 3] [0; 2; 3] [1; 3; 4] []
+                       [bs "a"; bs "b"; bs "c"; bs "d"; bs "e"] [4; -5; 6]%Z [bs "f"; bs "g"; bs "h"].
+Proof. vm_compute. reflexivity. Qed.
+
+(** the whole-file theorem applies to a concrete file (and agrees with plain computation) *)
+Example ex_whole_bin :
+  import_whole KBCDD [1; 4; 5] 6 (export_whole_bin ex_x (dag_of ex_dag))
+  = WOk (header_of ex_x, state_of [1; 4; 5] ex_dag 5, [eref 4 false; eref 5 true; eref 6 false]).
+Proof.
+  apply (import_export_whole_bin ex_x [1; 4; 5] 6 ex_dag); try reflexivity.
+  - exact ex_x_wf.
+  - exact ex_dag_wf.
+  - exact ex_slm_incr.
+  - repeat constructor.
+Qed.
+
+Example ex_whole_bin_computed :
+  import_whole KBCDD [1; 4; 5] 6 (export_whole_bin ex_x (dag_of ex_dag))
+  = WOk (header_of ex_x, state_of [1; 4; 5] ex_dag 5, [eref 4 false; eref 5 true; eref 6 false]).
+Proof. vm_compute. reflexivity. Qed.
+
+(** malformed inputs are rejected by values, e.g. a truncated file, a level that occurs twice,
+    a root reference beyond [.nnodes] *)
+Example ex_rejects :
+  import_whole KBCDD [1; 4; 5] 6 (firstn 23 (export_whole_bin ex_x (dag_of ex_dag))) = WHdr HEof /\
+  load_header (bs ".nvars 3
+.nsuppvars 2
+.ids 0 1
+.permids 2 2
+.nodes
+") = HErr HPermDup /\
+  load_header (bs ".nnodes 2
+.nroots 1
+.rootids -3
+.nodes
+") = HErr HRootRange.
+Proof. vm_compute. repeat split. Qed.
+
+Lemma fill_names_length : forall v pool r, fill_names v pool = HOk r -> length r = length v.
+Proof.
+  induction v as [|a v IH]; intros pool r H; cbn in H; [inversion H; reflexivity|].
+  destruct a.
+  - destruct pool; [discriminate|]. apply hmap_ok in H. destruct H as (r' & H & ->). cbn. f_equal. eapply IH; exact H.
+  - apply hmap_ok in H. destruct H as (r' & H & ->). cbn. f_equal. eapply IH; exact H.
+Qed.
+
+Lemma take_names_length : forall pairs v o v' o', take_names pairs v o = HOk (v', o') -> length v' = length v.
+Proof.
+  induction pairs as [|[id pm] pairs IH]; intros v o v' o' H; cbn [take_names] in H; [inversion H; reflexivity|].
+  apply hbind_ok in H. destruct H as (name & _ & H).
+  destruct (set_nth (N.to_nat pm) [] o) as [o1|]; [|discriminate].
+  destruct (set_nth (N.to_nat id) name v) as [v1|] eqn:Ev; [|discriminate].
+  rewrite (IH _ _ _ _ H). apply (set_nth_spec _ _ _ _ Ev).
+Qed.
+
+(** format 2.0: the names of the support variables are recovered exactly *)
+Theorem recover_names_support x names : xwf x -> x_names x = Some names -> x_ver3 x = false ->
+  h_varnames (header_of x) = recover_names x names /\
+  len (recover_names x names) = x_nvars x /\
+  forall id pm, In (id, pm) (x_supp x) ->
+    nth_error (recover_names x names) (N.to_nat id) = Some (name_of names id).
+Proof.
+  intros Hx En Ev.
+  assert (Hh : h_varnames (header_of x) = recover_names x names).
+  { unfold header_of. cbn [h_varnames]. rewrite En, Ev. reflexivity. }
+  split; [exact Hh|].
+  pose proof (var_names_block_print x Hx) as Hb. rewrite Hh in Hb.
+  unfold st_of in Hb. cbn [s_varnames s_suppnames s_ordered] in Hb. rewrite En, Ev in Hb.
+  set (R := recover_names x names) in *.
+  pose proof (xw_names x Hx) as Hn. rewrite En in Hn. destruct Hn as [Hlen Hgood].
+  pose proof (xw_l2v_len x Hx) as Hl.
+  unfold var_names_block in Hb. cbn [is_nil] in Hb.
+  destruct (is_nil (map (name_of names) (x_l2v x))) eqn:Eo.
+  - (* no variables *)
+    assert (E1 : x_l2v x = []) by (destruct (x_l2v x); [reflexivity|discriminate]).
+    rewrite E1 in Hl. cbn in Hl.
+    assert (E2 : x_vars x = []) by (unfold x_nvars, len in Hl; destruct (x_vars x); [reflexivity|cbn in Hl; lia]).
+    unfold x_ids, x_supp in Hb |- *. rewrite E2 in Hb |- *. cbn in Hb. inversion Hb as [Hr].
+    split; [unfold x_nvars; rewrite E2; reflexivity|intros ? ? []].
+  - apply hbind_ok in Hb. destruct Hb as ([v1 o1] & Ht & Hb).
+    apply hbind_ok in Hb. destruct Hb as (r & Hf & Hb).
+    apply hbind_ok in Hb. destruct Hb as (_ & _ & Hb). inversion Hb as [Hr]. clear Hb.
+    assert (N1 : NoDup (map fst (combine (x_ids x) (x_permids x)))).
+    { rewrite x_supp_combine. apply incr_NoDup. apply sorted_strict_incr. apply supp_from_sorted. }
+    assert (N2 : NoDup (map snd (combine (x_ids x) (x_permids x)))).
+    { rewrite x_supp_combine. apply supp_from_levels_nodup. apply Hx. }
+    destruct (take_names_content _ _ _ _ _ Ht N1 N2) as [Hc _].
+    rewrite <- Hr. split.
+    + unfold len. rewrite (fill_names_length _ _ _ Hf), (take_names_length _ _ _ _ _ Ht), repeat_length. lia.
+    + intros id pm Hp.
+      eapply fill_names_content; [exact Hf| |].
+      * rewrite (Hc id pm) by (rewrite x_supp_combine; exact Hp).
+        destruct (supp_l2v x Hx id pm Hp) as (H1 & _ & _). rewrite nth_error_map, H1. reflexivity.
+      * destruct (supp_l2v x Hx id pm Hp) as (_ & H2 & _).
+        apply (name_of_good names id Hgood). unfold len in Hlen. lia.
+Qed.
